@@ -89,7 +89,12 @@ def specSched (acts : List String) (obs : String) : String :=
       -- fully responsive server: every request whose future is still wanted has been answered
       futs.all (fun (_, id, st) => st == "dropped" || delivs.any fun (i, _, _) => i == some id) &&
       (match acts.getLast? with | some a => a.startsWith "r" | none => false)
-    if !clean then "ok"
+    -- C07 (session part): once the transport has failed, fair polling completes EVERY future that was
+    -- not dropped — with its parked reply or with an error — nothing stays pending
+    let endsWithRounds := (match acts.getLast? with | some a => a.startsWith "r" | none => false)
+    if closed && endsWithRounds && futs.any (fun (_, _, st) => st == "pending") then
+      "violation pending-after-close"
+    else if !clean then "ok"
     else
       let stuck := futs.filter fun (_, id, st) =>
         st != "dropped" && (delivs.any fun (i, _, _) => i == some id) && !st.startsWith "ok"
